@@ -5,5 +5,5 @@ package inject
 
 import "embed"
 
-//go:embed simrt simos simtime simrand simrand2 simcrand simioutil gsim act harness
+//go:embed simrt simos simtime simrand simrand2 simcrand simioutil simsync simruntime gsim act harness
 var FS embed.FS
